@@ -6,7 +6,8 @@ theorems   lean/PyTough/Props/C20.lean (proofs in Proofs/Convert*.lean)
 tie        translator (tables + evaluated MOP behaviour, re-checked by `decide`), correspondence facets
            `convert` (real t2data object vs model after operation sequences; canonical dump of every attribute
            the conversion touches), `convert_file` (keyword order of the file written after conversion vs the
-           model's update_sections), `history_lines` (FOFT/COFT/GOFT name lines written and re-read),
+           model's update_sections), `history_lines` (FOFT/COFT/GOFT name lines written and re-read), `short_lines` (SHORT heading and sub-sections
+           written and re-read),
            `waiwera_eos`, `waiwera_rocks`, `waiwera_sources` (eos_json / rocks_json / generators_json vs model)
 oracle     the clauses of the property evaluated on the real converted object, on the file it writes and
            reads back, and on the dict returned by json()
@@ -483,7 +484,7 @@ def rand_model(rng, flavour, wf=True):
     short = {'freq': None, 'block': None, 'con': None, 'gen': None}
     hb, hc, hg = [], [], []
     if (flavour == 'A' and rng.random() < 0.7) or (flavour == 'T' and rng.random() < 0.05):
-        if rng.random() < 0.5: short['freq'] = (rng.choice([None, 0, 2, 5]),)
+        if rng.random() < 0.5: short['freq'] = (rng.choice([None, 0, 2, 5, 7, 12, 99, 100, 123, -3]),)
         if rng.random() < 0.6: short['block'] = (rand_items(rng, 'block', blocks, cons, allg, rng.random() < 0.1),)
         if rng.random() < 0.5: short['con'] = (rand_items(rng, 'con', blocks, cons, allg, rng.random() < 0.1),)
         if rng.random() < 0.6: short['gen'] = (rand_items(rng, 'gen_as_gen', blocks, cons, allg, rng.random() < 0.1),)
@@ -668,7 +669,9 @@ def file_keywords(path, order):
             if not ln.strip(): in_short = False
             continue
         k = ln[0:5].rstrip()
-        if k in order and (ln[5:].strip() == '' or (k == 'SHORT' and ln[5:].strip().isdigit())):
+        if k[0:5] == 'SHORT' and len(ln) <= 8:          # 'SHORT' + '%2d' % frequency
+            k = 'SHORT'
+        if k in order and (ln[5:].strip() == '' or k == 'SHORT'):
             kws.append(k)
             in_short = (k == 'SHORT')
     return kws
@@ -1198,6 +1201,44 @@ def history_lines_real(b):
     return res
 
 
+_PARSER = {}
+
+
+def short_lines_real(b, tmp):
+    """what the real write_short_output prints, and what the real read_short_output makes of those lines"""
+    import t2data as T
+    d = b.d
+    if not d.short_output:
+        return None
+    sink = _Sink()
+    try:
+        d.write_short_output(sink)
+    except (AttributeError, TypeError):
+        return ('exc raises', None)
+    ls = sink.lines()
+    header, body = ls[0], ls[1:-1]
+    w = 'ok ' + eS(header) + ' ' + eL(eS, body)
+    e = T.t2data(); e.grid = d.grid; e.generator = d.generator
+    # read_short_output parses the heading through its parser: one parser object, fed from memory
+    infile = _PARSER.get('p')
+    if infile is None:
+        path = os.path.join(str(tmp), 'c20_short.txt')
+        open(path, 'w').close()
+        infile = T.t2data_parser(path, 'r')
+        infile.file.close()
+        _PARSER['p'] = infile
+    infile.file = io.StringIO(''.join(x + '\n' for x in body))
+    try:
+        quiet(e.read_short_output, infile, header + '\n')
+        infile.close()
+        eb = Built(); eb.d = e; eb.genid = b.genid; eb.keep = b.keep; eb.next_id = b.next_id
+        r = 'ok ' + eShort(normalise(extract(eb))['short'])
+    except KeyError:
+        infile.close()
+        r = 'exc KeyError'
+    return (w, (header, body, r))
+
+
 # ------------------------------------------------------------------ module metadata
 
 THEOREMS = ['Props.C20.' + t for t in [
@@ -1213,6 +1254,7 @@ THEOREMS = ['Props.C20.' + t for t in [
     'add_generator_spec', 'delete_generator_spec', 'insert_delete_section_spec',
     'section_ops_keep_order', 'converted_sections_ordered',
     'distinct_objects_same_obj', 'lookup_last_one_wins',
+    'to_autough2_short_roundtrip', 'short_section_roundtrip',
 ]] + [
     # obligations on the generated tables (decide over the whole table, re-elaborated against /repo's current tables)
     'Proofs.Convert.convert_targets_tough2',
@@ -1378,7 +1420,7 @@ def _run(ctx, scale=1.0, model=True):
     import importlib, t2data, t2grids, mulgrids
     for m in (mulgrids, t2grids, t2data):
         importlib.reload(m)
-    _GEO_CACHE.clear()
+    _GEO_CACHE.clear(); _PARSER.clear()
     order = _section_order()
     res = Result()
     res.rule = ('conversion cases = (data object of either flavour built through the public constructors, 1..5 operations); distinct = distinct '
@@ -1387,7 +1429,7 @@ def _run(ctx, scale=1.0, model=True):
                 'volumes, EOS source, generators); non-trivial = at least one boundary block of non-default volume, or an EOS not given explicitly, '
                 'or a generator outside the grid/in the atmosphere')
     use_model = model and ctx.model_ok
-    fc, ff, fh = res.facet('convert'), res.facet('convert_file'), res.facet('history_lines')
+    fc, ff, fh, fsl = res.facet('convert'), res.facet('convert_file'), res.facet('history_lines'), res.facet('short_lines')
     fe, fr, fs, fb = res.facet('waiwera_eos'), res.facet('waiwera_rocks'), res.facet('waiwera_sources'), res.facet('waiwera_boundary')
     lines, expect = [], []        # driver requests and (facet, expected reply, case-json, decode?)
     hyp_nodup, hyp_ids, hyp_wf, hyp_rt, hyp_hg, hyp_ord = [0, 0], [0, 0], [0, 0], [0, 0], [0, 0], [0, 0]
@@ -1453,6 +1495,18 @@ def _run(ctx, scale=1.0, model=True):
             if wrote:
                 ops2 = list(case['ops']) + [('updSec',)]
                 lines.append('conv %s %s' % (enc0, eL(eOp, ops2))); expect.append(('convert_file', kws, case, None))
+            # SHORT name lines
+            sl = short_lines_real(b, ctx.tmp)
+            if sl is not None:
+                w, rd = sl
+                lines.append('wshort ' + eShort(normalise(st1)['short'])); expect.append(('short_lines', w, case, None))
+                if rd is not None:
+                    header, body, r = rd
+                    lines.append('rshort %s %s %s %s %s' % (eL(eS, st1['blocks']),
+                                                            eL(lambda p: eS(p[0]) + ' ' + eS(p[1]), list(b.d.grid.connection.keys())),
+                                                            eL(lambda e: '%s %s %d' % (eS(e[0]), eS(e[1]), e[2]), st1['gendict']),
+                                                            eS(header), eL(eS, body)))
+                    expect.append(('short_lines', r, case, None))
             # history name lines
             hl = history_lines_real(b)
             for kind in ('hb', 'hc', 'hg'):
